@@ -98,6 +98,8 @@ def ev(v, env):
         raise Unknown("aggregate %s" % show(v))
     if k == "T":
         return tuple(ev(x, env) for x in v[1])
+    if k == "C":
+        raise Unknown("%s is compared after being passed through %s (a derived value, not the operation's own field)" % (show(v[3][0]) if v[3] else "?", v[2]))
     raise Unknown("value %s" % show(v))
 
 
